@@ -28,6 +28,9 @@ CHECKS = {
  "C15": dict(engine="irsim", category="exploration", design="DESIGN.md section 6 (C15)", technique="deterministic simulation degenerated to one client: seeded add/remove/re-add/rename histories against a never-shrinking name model; NameFixPass on generated well-formed models",
    text="History-only. Part A: Engine A histories biased to unnamed and generated-looking explicit names check every auto-assigned name against the per-graph registered-name model and explicit names for stability; rename_values is checked all-or-nothing by snapshot. Part B: NameFixPass on seeded well-formed models (nested scopes, functions, missing/duplicated/generated-looking names): non-empty, unique per graph, no shadowing of visible outer values, initializer keys, nothing but names changed, already-unique names kept.",
    note="the registered-name model under-approximates; 'visible' outer values are those defined before the owner node; unsorted graphs and initializer order are recorded findings."),
+ "C13": dict(engine="irsim", category="exploration", design="DESIGN.md section 6 (C13)", technique="deterministic simulation of two replicas: seeded edit histories routed to original or clone, isolation invariant after every op",
+   text="History-only. A generated well-formed model is cloned (Model/Graph/Function/GraphView clone, deep_copy on/off, subgraph with/without allowed outer values, functionalize over 10 passes); at clone time the protos must be equal and the identity sets (graphs, nodes, values, shapes, types, metadata containers, collections) disjoint; then each of 10-40 Engine A edits is routed to one replica and the canonical snapshot of the other must not change.",
+   note="tensors / non-graph Attr / ModelConfiguration may be shared; meta values are shared unless deep_copy; opset_imports is outside the statement; unsorted graphs only where cloning silently succeeds."),
 }
 NA = [
  ("C02", "pure function of the input proto: no schedule, clock, fault, crash point or history for a simulator to vary (DESIGN.md section 7)"),
